@@ -33,14 +33,15 @@ import (
 
 // params is one session-parameter tuple.
 type params struct {
-	Proto  string   `json:"proto"`
-	SID    *string  `json:"sid"` // nil = no session id
-	IDs    []string `json:"ids"`
-	T      int      `json:"t"`
-	Msg    string   `json:"msg"`
-	KeySet int      `json:"keyset"` // which key generation the material comes from (0/1)
-	PreSig int      `json:"presig"` // which presignature (0/1)
-	Child  int      `json:"child"`  // 0: the key set itself; 1: its BIP-32 child 0; 2 / 3: child 0 / child 1 derived from a parent OBJECT that has already been used (written into a transcript)
+	Proto   string   `json:"proto"`
+	SID     *string  `json:"sid"` // nil = no session id
+	IDs     []string `json:"ids"`
+	T       int      `json:"t"`
+	Msg     string   `json:"msg"`
+	KeySet  int      `json:"keyset"`             // which key generation the material comes from (0/1)
+	PreSig  int      `json:"presig"`             // which presignature (0/1)
+	TagOnly bool     `json:"tag_only,omitempty"` // compare session tags only (no replay of messages into the other session)
+	Child   int      `json:"child"`              // 0: the key set itself; 1: its BIP-32 child 0; 2 / 3: child 0 / child 1 derived from a parent OBJECT that has already been used (written into a transcript)
 }
 
 func (p params) String() string {
@@ -309,6 +310,10 @@ func bases() []params {
 	if vkit.Thorough() {
 		l = append(l, params{Proto: "cmp-keygen", SID: sidp("a"), IDs: ab, T: 1}, params{Proto: "cmp-presign", SID: sidp("a"), IDs: ab, T: 1},
 			params{Proto: "cmp-refresh", SID: sidp("a"), IDs: ab, T: 1})
+	} else {
+		// quick tier: the session tags of these two are compared for every one-parameter variation; the replay of
+		// every message at every point of the other session (seconds per session) is left to the thorough tier
+		l = append(l, params{Proto: "cmp-presign", SID: sidp("a"), IDs: ab, T: 1, TagOnly: true}, params{Proto: "cmp-refresh", SID: sidp("a"), IDs: ab, T: 1, TagOnly: true})
 	}
 	return l
 }
@@ -510,6 +515,9 @@ func pairName(a, b string) string {
 
 // replayPair offers every message of session A at every point of session B.
 func replayPair(A, B params, pclass string, sameTag bool, res *vkit.Result) bool {
+	if A.TagOnly || B.TagOnly {
+		return true
+	}
 	spA, errA := spec(A)
 	spB, errB := spec(B)
 	if errA != nil || errB != nil {
